@@ -80,6 +80,23 @@ Overlay(dc, x) ==
 
 (* L2 traces: the harness restates, for every Cycle line, what the manifests    *)
 (* declare (decl_apps) and the partition / priority in force (declared, oprio)  *)
+SpelledVec(sp) == <<MB(sp[1]), CPU(sp[2]), MB(sp[3])>>
+(* C02's oracle ("room in every dimension") on the capacity a server DECLARED    *)
+(* with the one registration the master is bound to hold: free = that capacity   *)
+(* minus the demand placed there (used for the probe clause only - C01 judges    *)
+(* the recorded capacity and free vectors themselves)                            *)
+CapL2(line, x) ==
+  IF "spells" \notin DOMAIN line THEN x
+  ELSE [x EXCEPT !.servers = [s \in DOMAIN x.servers |->
+          IF s \in DOMAIN line.spells /\ Len(line.spells[s]) = 1
+          THEN LET cap == SpelledVec(line.spells[s][1])
+                   on == {a \in DOMAIN x.apps : x.apps[a].server = s} IN
+               [x.servers[s] EXCEPT
+                  !.cap = cap,
+                  !.free = [d \in DOMAIN cap |->
+                              cap[d] - FoldSet(LAMBDA a, acc : acc + x.apps[a].demand[d], 0, on)]]
+          ELSE x.servers[s]]]
+
 (* the traits a server reported with the ONE registration the master is bound   *)
 (* to hold (spells[s] has a single entry; its 4th element lists them)           *)
 TraitsL2(line, x) ==
@@ -266,7 +283,7 @@ CycleFail(rawpre, line, rawpost) ==
   \cup F("drift.declared", pre = rawpre /\ post = rawpost)
   \cup F("C02.prune", C02prune(post))
   \cup (IF line.ev = "ProbeCycle" /\ line.quiet
-        THEN F("C02.probe", C02probe(pre, post, q, line.probe)) ELSE {})
+        THEN F("C02.probe", C02probe(CapL2(line, pre), post, q, line.probe)) ELSE {})
 
 CycleEx(pre, line, post) ==
   LET q == Flatten(line.queues) IN
@@ -279,7 +296,6 @@ CycleEx(pre, line, post) ==
                        /\ post.apps[a].server # pre.apps[a].server)
 
 (* C01, units: what the loader made of a spelled record (L2 traces only) *)
-SpelledVec(sp) == <<MB(sp[1]), CPU(sp[2]), MB(sp[3])>>
 UnitsOk(line, post) ==
   ("spells" \in DOMAIN line) =>
     \* the vector in the model is the meaning of one of the spellings registered
